@@ -13,7 +13,7 @@ from fractions import Fraction as Fr
 from lib.rat import R, F, close, dev
 
 ID = "C19"
-QUICK_N = 2500
+QUICK_N = 1800
 THOROUGH_N = 25000
 QUICK_BUDGET_S = 80
 THOROUGH_BUDGET_S = 900
@@ -233,8 +233,9 @@ def gen_chart(rng, tier, game, exact):
     times = sorted(times)
     pool = []
     bpms = []
+    two = [Fr(x) for x in rng.sample(E_BPMS, 2)]
     for t in times:
-        b = g_bpm(rng, exact, pool)
+        b = rng.choice(two) if exact == "coarse" else g_bpm(rng, exact, pool)
         if len(pool) < rng.choice([1, 2, 3, 5]):
             pool.append(b)
         bpms.append([R(t), R(b)])
@@ -296,7 +297,27 @@ def gen_chart(rng, tier, game, exact):
     return dict(bpms=bpms, svs=svs, notes=[R(t) for t in notes], holds=holds)
 
 
+def gen_tie(rng, claim, game):
+    """two bpm values with exactly equal totals (alternating equal spans, rows shuffled)"""
+    n = rng.choice([2, 2, 4, 4, 6, 8])
+    a, b = rng.sample(E_BPMS, 2)
+    step = rng.choice([250, 1000, 1500])
+    base = rng.choice([0, 0, -500, 1250])
+    bp = [(base + step * k, a if k % 2 == 0 else b) for k in range(n)]
+    if rng.random() < 0.5:          # unequal pieces with the same sum
+        bp = [(base, a), (base + step, b), (base + 3 * step, a), (base + 4 * step, b)]
+        n = 6
+    rng.shuffle(bp)
+    notes = [base + rng.choice([0, step // 2]), base + step * n]
+    svs = [(base + step * rng.randrange(0, n), rng.choice(E_MULTS)) for _ in range(rng.choice([0, 1, 3]))] if game in SV_GAMES else []
+    return _c(claim, game, bp, notes, svs=svs)
+
+
 def gen(rng, tier, i):
+    if rng.random() < 0.05:
+        claim = rng.choice(["dominant", "dominant", "speed", "normalize"])
+        game = rng.choice(SV_GAMES if claim == "normalize" else GAMES)
+        return gen_tie(rng, claim, game)
     r = rng.random()
     claim = "dominant" if r < 0.3 else ("speed" if r < 0.8 else "normalize")
     if claim == "normalize":
